@@ -457,3 +457,176 @@ func handedOutSigners(r *ev.Run) {
 		r.Nontrivial("handed-out-signers")
 	})
 }
+
+// addVsRemoveAll: a hardware certificate is being added (its KeyID is large, so labelling it takes a while, and the
+// underlying agent answers the binding listing slowly) while another client removes everything. Whichever of the two
+// the shim puts first, the outcome is that of the two run one after the other: add then remove-all leaves nothing;
+// remove-all then add finds no key and refuses. A shim that afterwards lists the certificate has interleaved them.
+func addVsRemoveAll(r *ev.Run) {
+	for vi, second := range []string{"remove-all", "remove-key", "remove-all"} {
+		c := r.Case("add-hard-cert-vs-"+second, vi)
+		if c == nil {
+			continue
+		}
+		r.Eval(1)
+		r.Guard(c, "add-hard-cert beside "+second, nil, func() {
+			ag := wire.New()
+			defer ag.Close()
+			sock, err := ag.Listen()
+			if err != nil {
+				r.Inconclusive(err.Error())
+				return
+			}
+			k := gen.Pool()[vi*3%len(gen.Pool())]
+			ag.Keyring.Add(agent.AddedKey{PrivateKey: k.Priv, Comment: "k"})
+			// a second key, so that the underlying agent's list is not empty once k is gone (an empty list drops nothing)
+			ag.Keyring.Add(agent.AddedKey{PrivateKey: gen.Pool()[(vi*3+1)%len(gen.Pool())].Priv, Comment: "k2"})
+			s, err := shimagent.New(shimagent.Option{Address: sock, NoUpstream: vi == 2})
+			if err != nil {
+				r.Violation(c, "shim-construction-fails-without-fault", err.Error(), nil)
+				return
+			}
+			var prins []string
+			for i := 0; i < 60000; i++ {
+				prins = append(prins, fmt.Sprintf("host-%05d.example.com", i))
+			}
+			now := uint64(time.Now().Unix())
+			cert := gen.MakeCert(gen.CertSpec{Key: k, KeyID: gen.YSSHCAKeyID(gen.KeyIDSpec{HW: true, Touch: 3, TransID: "bigkeyid01", Prins: prins}), ValidAfter: now - 60, ValidBefore: now + 3600, Principals: []string{"u"}})
+			n0 := ag.NumRequests()
+			ag.SetPlan(func(idx int, req []byte) wire.Action {
+				if idx == n0 && len(req) > 0 && req[0] == 11 {
+					return wire.Action{Kind: wire.Honest, Delay: 60 * time.Millisecond}
+				}
+				return wire.Action{Kind: wire.Honest}
+			})
+			var addErr, remErr error
+			var wg sync.WaitGroup
+			wg.Add(2)
+			go func() { defer wg.Done(); addErr = s.AddHardCert(cert, "big") }()
+			go func() {
+				defer wg.Done()
+				deadline := time.Now().Add(ev.OpTimeout())
+				for ag.NumRequests() == n0 && time.Now().Before(deadline) {
+					time.Sleep(100 * time.Microsecond)
+				}
+				if second == "remove-key" {
+					remErr = s.Remove(k.Pub)
+				} else {
+					remErr = s.RemoveAll()
+				}
+			}()
+			done := make(chan struct{})
+			go func() { wg.Wait(); close(done) }()
+			select {
+			case <-done:
+			case <-time.After(ev.OpTimeout() + 20*time.Second):
+				r.Violation(c, "operation-does-not-complete:add-hard-cert-vs-"+second, "", nil)
+				return
+			}
+			if remErr != nil {
+				r.Count("add-hard-cert beside "+second+": the removal failed (not judged)", 1)
+				return
+			}
+			l, lerr := s.List()
+			if lerr != nil {
+				r.Violation(c, "list-fails-without-fault", lerr.Error(), nil)
+				return
+			}
+			for _, x := range l {
+				if bytes.Equal(x.Blob, cert.Marshal()) {
+					r.Violation(c, "history-not-linearizable:add-hard-cert/"+second, fmt.Sprintf("AddHardCert (err=%v) ran beside %s (err=%v): afterwards the shim lists the hardware certificate although the underlying agent no longer holds its key — neither order of the two operations ends like this", addErr, second, remErr), nil)
+					return
+				}
+			}
+			r.Count("add-hard-cert beside remove-all/remove: outcome equals one of the two orders", 1)
+			r.Nontrivial("add-vs-" + second + fmt.Sprint(vi))
+		})
+	}
+}
+
+// slowExchange: one client's signature takes seven seconds in the underlying agent (a key waiting for a touch); a relayed
+// request and a listing of other clients queue behind it early on. Everybody gets their own reply: the long exchange
+// is not cut short by the ones waiting for the connection, and the connection is as usable afterwards — also after
+// it then stayed idle for several seconds — as before.
+func slowExchange(r *ev.Run) {
+	c := r.Case("slow-exchange", 0)
+	if c == nil {
+		return
+	}
+	r.Eval(1)
+	r.Guard(c, "seven-second exchange with early queuers", nil, func() {
+		ag := wire.New()
+		defer ag.Close()
+		sock, err := ag.Listen()
+		if err != nil {
+			r.Inconclusive(err.Error())
+			return
+		}
+		k := gen.Pool()[0]
+		ag.Keyring.Add(agent.AddedKey{PrivateKey: k.Priv, Comment: "k"})
+		s, err := shimagent.New(shimagent.Option{Address: sock})
+		if err != nil {
+			r.Violation(c, "shim-construction-fails-without-fault", err.Error(), nil)
+			return
+		}
+		ag.SetPlan(func(_ int, req []byte) wire.Action {
+			if len(req) > 0 && req[0] == 13 {
+				return wire.Action{Kind: wire.Honest, Delay: 7 * time.Second}
+			}
+			return wire.Action{Kind: wire.Honest}
+		})
+		var wg sync.WaitGroup
+		var mu sync.Mutex
+		var bad []string
+		note := func(s string) { mu.Lock(); bad = append(bad, s); mu.Unlock() }
+		data := []byte("slow signature")
+		wg.Add(3)
+		go func() {
+			defer wg.Done()
+			sig, err := s.Sign(k.Pub, data)
+			if err != nil || k.Pub.Verify(data, sig) != nil {
+				note(fmt.Sprintf("the seven-second signature: err=%v", err))
+			}
+		}()
+		go func() {
+			defer wg.Done()
+			time.Sleep(300 * time.Millisecond)
+			tag := append([]byte{200}, []byte("queued-behind-the-slow-signature")...)
+			if resp, err := s.Forward(tag); err != nil || !bytes.Equal(resp, tag) {
+				note(fmt.Sprintf("relayed request queued behind the slow signature: err=%v reply=%q", err, trunc(resp)))
+			}
+		}()
+		go func() {
+			defer wg.Done()
+			time.Sleep(600 * time.Millisecond)
+			if l, err := s.List(); err != nil || len(l) != 1 {
+				note(fmt.Sprintf("listing queued behind the slow signature: %d identities, err=%v", len(l), err))
+			}
+		}()
+		done := make(chan struct{})
+		go func() { wg.Wait(); close(done) }()
+		select {
+		case <-done:
+		case <-time.After(ev.OpTimeout() + 30*time.Second):
+			r.Violation(c, "operation-does-not-complete:slow-exchange", "", nil)
+			return
+		}
+		if len(bad) == 0 {
+			// the connection then stays idle for a while: nothing that was armed for an earlier exchange may fire now
+			time.Sleep(5500 * time.Millisecond)
+			if l, err := s.List(); err != nil || len(l) != 1 {
+				note(fmt.Sprintf("listing after 5.5 idle seconds: %d identities, err=%v", len(l), err))
+			}
+			tag := append([]byte{200}, []byte("after-the-idle-period")...)
+			if resp, err := s.Forward(tag); err != nil || !bytes.Equal(resp, tag) {
+				note(fmt.Sprintf("relayed request after the idle period: err=%v reply=%q", err, trunc(resp)))
+			}
+		}
+		if len(bad) > 0 {
+			r.Violation(c, "wrong-reply:slow-exchange", bad[0], bad)
+			return
+		}
+		r.Count("seven-second exchange with early queuers, then an idle period: every reply right", 1)
+		r.Nontrivial("slow-exchange")
+	})
+}
